@@ -1,3 +1,4 @@
 /- C19 — seesaw grammar round trips: theorems are in Props/C19Ssw.lean and Props/C19More.lean. -/
 import DsdVerif.Props.C19Ssw
 import DsdVerif.Props.C19More
+import DsdVerif.Props.C19Doc
